@@ -13,7 +13,7 @@ for d in sorted(os.listdir(os.path.join(V, "seeded"))):
         "needs_to_manifest": am.get("needs_to_manifest"),
         "demo": {"file": "demo_test.go", "package_dir": am.get("demo_package_dir"), "run": am.get("demo_run")},
         "origin": "written by an independent sub-agent that saw only the property text and a scratch worktree of /repo (nothing from /verif)",
-        "confirmed_by_me": "tools/confirm_mutant.sh in a scratch worktree: demo passes on the clean tree, fails with the patch applied; the existing tests of the touched packages pass with the patch applied",
+        "confirmed_by_me": "tools/confirm_mutant.sh (rounds 1-4) / tools/confirm_mutant5.sh (round 5) in a scratch worktree: demo passes on the clean tree, fails with the patch applied; the existing tests of the touched packages pass with the patch applied",
         "detection": r,
     }
     json.dump(meta, open(os.path.join(p, "meta.json"), "w"), indent=1)
